@@ -235,10 +235,18 @@ struct ScriptRun {
   int pattern_changed_at = -1, protocol_bad_at = -1, fabricated_at = -1, threw = 0;
   uint64_t all() const { uint64_t h = FNV_INIT; for (uint64_t d : digests) h = fnv1a(h, &d, sizeof d); return h; }
 };
-static ScriptRun run_script(StringDictionary *d, const std::vector<Call> &s) {
+// `skip` (optional): calls whose reference execution does not survive (symmetric failures) are not issued
+static bool call_stateless(const Call &c) { return c.op == C_LOCATE || c.op == C_EXTRACT || c.op == C_LOCRANK || c.op == C_EXTRANK || c.op == C_NUM || c.op == C_MAXLEN; }
+// `resume_from`: calls before this index were already answered by an earlier (dead) child; only the
+// stateful ones (iterator open/next/close) are re-executed, silently, to rebuild iterator state
+static ScriptRun run_script(StringDictionary *d, const std::vector<Call> &s, const std::vector<char> *skip = nullptr, int report_fd = -1, size_t resume_from = 0) {
   ScriptRun o; ClientState cs;
   for (size_t i = 0; i < s.size(); i++) {
+    if (skip && (*skip)[i]) { o.digests.push_back(0); continue; }
+    if (i < resume_from) { o.digests.push_back(0); if (!call_stateless(s[i])) exec_call(d, cs, s[i]); continue; }
+    if (report_fd >= 0) { uint32_t m[2] = {0xB0B0B0B0u, (uint32_t)i}; ssize_t w = write(report_fd, m, sizeof m); (void)w; }
     CallResult r = exec_call(d, cs, s[i]);
+    if (report_fd >= 0) { struct { uint32_t magic, idx; uint64_t dig; uint32_t flags; uint32_t pad; } m = {0xD1D1D1D1u, (uint32_t)i, r.digest, (uint32_t)(r.pattern_changed | (r.protocol_bad << 1) | (r.nonnull_from_unsupported << 2) | (r.threw << 3)), 0}; ssize_t w = write(report_fd, &m, sizeof m); (void)w; }
     o.digests.push_back(r.digest);
     if (r.pattern_changed && o.pattern_changed_at < 0) o.pattern_changed_at = (int)i;
     if (r.protocol_bad && o.protocol_bad_at < 0) o.protocol_bad_at = (int)i;
